@@ -49,7 +49,7 @@ def parse_summary(path):
 
 def run(ctx):
     ctx.level = "proof"
-    status = vlib.proof_status(PID, extra_targets=["C17/Extract.v"])
+    status = vlib.proof_status(PID, extra_targets=["C17/Extract.v", "C17/FloatRemark.v"])
     ctx.proof_gate(status)
     drv = vlib.build_ocaml_driver("c17_driver", os.path.join(vlib.COQ, "extracted"),
                                   os.path.join(ctx.prop_dir, "driver", "c17_driver.ml"), only=["c17_model"])
@@ -83,7 +83,9 @@ def run(ctx):
         ctx.violation("c17-" + kind, "acmelib breaks C17 (%s): %s" % (kind, detail),
                       {"case": case, "detail": detail,
                        "how": "./check C17 --replay <this file>  (the call is repeated 40 times: map iteration order is random)"})
-    if mism != 0 and not summ["propfail"]:
+    known = {k["signature"] for k in ctx.known_open}
+    new_propfail = [k for k in summ["propfail"] if "c17-" + k not in known]
+    if mism != 0 and not new_propfail:
         first = re.search(r"MISMATCH \d+\n  case =(.*)\n  why  =(.*)", mlog)
         ctx.violation("c17-correspondence",
                       "model and implementation disagree on %s call(s) although every property predicate evaluated on the "
@@ -117,7 +119,10 @@ def run(ctx):
         "property_predicate_failures": sorted(summ["propfail"]),
         "samples": summ["samples"][:6],
         "exhaustive": False,
-        "float_bound": "relative max(n,1)*2^-50, n = number of messages on the bus (per-message rate: 2^-50)",
+        "float_bound": "relative max(n,1)*2^-50, n = number of messages on the bus (per-message rate: 2^-50); TESTED on every call, NOT proved",
+        "proved_vs_tested": "proved (Coq, axiom-free): the 18 theorems of Properties/C17.v about the exact-rational model. tested on this run, not proved: "
+                            "that Go's float64 figures stay within the bound of the exact ones, and that the model restates utils.go correctly",
+        "degenerate_calls_not_compared": int((re.search(r"DEGENERATE-CALLS-NOT-COMPARED (\d+)", mlog) or [0, 0])[1]),
         "trusted_base": [
             "Coq 8.16.1 kernel (coqc; coqchk in the thorough tier); vm_compute only in one closed Example",
             "axioms: none (Print Assumptions: Closed under the global context)" if not status["axioms"] else "axioms: " + ", ".join(status["axioms"]),
@@ -127,6 +132,8 @@ def run(ctx):
         ],
     })
     ctx.assumptions = [
+        "monotonicity (enlarge a message / shorten a cycle) is proved and holds for 0 < baud only: for a negative baud rate (accepted by Bus.SetBaudrate) it is refuted (monotone_negative_baud_refuted, open findings c17-*-negative-baud); for baud = 0 the load stays 0; the harness checks all three classes",
+        "shares are stated for a non-zero total rate only (entries_spec); on the property's domain a message makes the total positive (total_nonzero); an undefined bus type with only empty messages gives total 0 and NaN shares in Go (shares_unknown_type_refuted, open finding c17-nan-unknown-bus-type)",
         "float64 arithmetic of CalculateBusLoad is compared with the exact rational model within max(n,1)*2^-50 (not proved); the theorems are about the exact model",
         "bus type is BusTypeCAN2A (the only constant the library defines); sizes 0..8, cycle times >= 0, as the property states",
         "map iteration order is an oracle: the model visits the messages in creation order, the theorems hold for every order (load_order_free, each_message_once)",
